@@ -93,6 +93,8 @@ class Gen(object):
                 items.append(['figure', self.mk(), self.mk()])
             elif c < 0.98:
                 items.append(['footlist', self.mk(), self.mk('fk'), self.mk()])
+            elif c < 0.982:
+                items.append(['footsame', self.mk(), self.mk('fk'), self.mk()])       # two footnotes with the very same text
             elif c < 0.984:
                 items.append(['foottext', self.mk(), self.mk('fk'), self.mk()])       # \footnotetext without a mark
             elif c < 0.987:
@@ -181,6 +183,8 @@ def render_body(items, out):
             out.append('\\begin{description}\\item[%s] %s\\end{description}\n' % (it[1], it[2]))
         elif k == 'quote':
             out.append('\\begin{quote}%s\\end{quote}\n\\begin{center}%s\\end{center}\n' % (it[1], it[2]))
+        elif k == 'footsame':
+            out.append('%s\\footnote{%s} %s\\footnote{%s}.\n' % (it[1], it[2], it[3], it[2]))
         elif k == 'foottext':
             out.append('%s\\footnotetext{%s} %s.\n' % (it[1], it[2], it[3]))
         elif k == 'footmarktext':
@@ -235,6 +239,8 @@ def body_markers(items):
             b.extend(it[1:3])
         elif k in ('footlist', 'foottext', 'footmarktext', 'footquote'):
             b.append(it[1]); f.append(it[2]); b.append(it[3])
+        elif k == 'footsame':
+            b.append(it[1]); f.append(it[2]); b.append(it[3]); f.append(it[2])
         elif k == 'abstract':
             b.append(it[1])
     return b, f
@@ -361,7 +367,7 @@ def generate(seed, tier):
     rc = R('config')
     tpl, single = gen_template(rc)
     collide_labels(R('collide'), doc, tpl)
-    bad = rc.choice([None, None, DEFAULT_BAD.replace(' ', ''), ':/', ''])
+    bad = rc.choice([None, None, DEFAULT_BAD.replace(' ', ''), ':/', '', ' :.', ':. '])       # (a blank first or last in the option value)
     cfg = {'split': rc.choice([-10, -2, -1, 0, 0, 1, 1, 2, 2, 3, 3, 4, 5, 6]), 'template': tpl, 'single': single,
            'bad': bad, 'badsub': rc.choice(['-', '-', '_']),
            'renderer': rc.choice([['HTML5', 'default'], ['HTML5', 'default'], ['HTML5', 'minimal'], ['XHTML', 'default'], ['Text', 'default']])}
@@ -531,9 +537,10 @@ def judge(doc, cfg, out, info):
             count.setdefault(m, []).append(name)
     for m in allm:
         where = count.get(m, [])
-        if len(where) == 0:
-            return ({'sig': 'C13|lost|%s' % m[:2], 'detail': {'marker': m, 'files': sorted(per_file)}}, None)
-        if len(where) > 1:
+        want = allm.count(m)             # (two footnotes may carry the very same text: then it is printed twice)
+        if len(where) < want:
+            return ({'sig': 'C13|lost|%s' % m[:2], 'detail': {'marker': m, 'files': sorted(per_file), 'expected_times': want, 'found': where}}, None)
+        if len(where) > want:
             cls = 'repeated-in-file' if len(set(where)) == 1 else 'repeated-across-files'
             return ({'sig': 'C13|%s|%s' % (cls, m[:2]), 'detail': {'marker': m, 'where': where}}, None)
     # S1 + order: the partition of markers into files is the expected one
@@ -759,7 +766,7 @@ def enumerate_cases(base_seed, tier):
         for split in ((0, 1, 2) if tier == 'thorough' else (1,)):
             g = Gen(None)
             secs = []
-            for shapes in (['foottext', 'footquote'], ['footmarktext', 'foottext'], ['footquote']):
+            for shapes in (['foottext', 'footquote', 'footsame'], ['footmarktext', 'foottext'], ['footquote', 'footsame']):
                 body = [['para', [g.mk()]]] + [[sh, g.mk(), g.mk('fk'), g.mk()] for sh in shapes] + [['footpara', g.mk(), g.mk('fk'), g.mk()]]
                 secs.append({'kind': 'section', 'level': 1, 'star': False, 'label': None, 'title': g.mk('tk'), 'body': body, 'children': []})
             fdoc = {'cls': 'article', 'body': [['footquote', g.mk(), g.mk('fk'), g.mk()]], 'children': secs}
